@@ -144,7 +144,12 @@ func Worker(t *testing.T, e Engine) {
 		if outPath != "" {
 			os.WriteFile(outPath+".cur", []byte(fmt.Sprintf("{\"run\":%d,\"run_seed\":%d}", run, rs)), 0644)
 		}
-		c := execRun(t, e, prop, tier, NewTape(rs), false)
+		c := execRun(t, e, prop, tier, NewTape(rs), os.Getenv("VERIF_TRACE_RUNS") != "")
+		if d := os.Getenv("VERIF_TRACE_RUNS"); d != "" {
+			// debugging aid: the event log of every run, one file per run
+			os.MkdirAll(d, 0755)
+			os.WriteFile(fmt.Sprintf("%s/run-%d.txt", d, run), []byte(strings.Join(c.Trace, "\n")+"\n"), 0644)
+		}
 		out.Runs++
 		out.SimMs += c.SimMs
 		out.Events += c.Events
